@@ -108,6 +108,11 @@ def t1c(F, res):
                 for bi, t in mir.calls(b):
                     if is_trait_call(t, tr, m):
                         recursive = True
+                    # the method handed over as a function value: `.all(Apply::is_constant)`, `merge(parts, Apply::params)`
+                    for a in t["args"]:
+                        c_ = mir.op_const(a)
+                        if c_ and "fn" in c_ and (c_["fn"] == "%s::%s" % (tr, m) or (c_.get("fn_resolved") or "").endswith(" as %s>::%s" % (tr, m))):
+                            recursive = True
                     if is_trait_call(t, COMPOSITE):
                         via_composite = True
                     if is_trait_call(t, VISITOR, "reduce"):
